@@ -454,6 +454,24 @@ func runFaults(t *testing.T, rc *RunCtx) {
 		rc.Stats.Seen("cases", w.s.ScheduleSignature())
 		rc.Stats.Inc("probe_requests_meeting_a_fault", int64(nf))
 	}
+	// The store was closed with requests in flight (some had read their record and not yet written it): whatever was
+	// signed all the same must be in the store when it is opened again; a signature without its record means the
+	// failed write was passed over.
+	if closedStep >= 0 && len(rc.Viol) == 0 && w.ledger.N > 0 {
+		w.s.Direct(func() {
+			w.inst.Close()
+			ni, err := NewInstance(w.s, "reopened", w.inst.Cfg)
+			if err != nil {
+				rc.Violate("HARNESS", "reopen-after-close-failed", err.Error(), w.s.Step)
+				return
+			}
+			w.inst = ni
+			if ex, err := ni.Export(); err == nil {
+				ledgerCoveredAs(rc, "C06", "signature-without-record-after-store-closed", w.ledger, ex, "store reopened after it was closed under load", w.s.Step)
+				rc.Stats.Inc("probe_reopened_after_close_under_load", 1)
+			}
+		})
+	}
 	desc := make([]string, len(ops))
 	for i, o := range ops {
 		desc[i] = o.String()
